@@ -3,6 +3,7 @@ import Proofs.Outer
 import Proofs.Ring
 import Model.Transform
 import Proofs.Det
+import Proofs.OutExec
 
 /-! # C11 — linear transformations: function/rotor matrices, adjoint, composition
 
@@ -68,6 +69,20 @@ theorem outer_compose (k' m' e : Nat) (f : Nat → CMV m' R) (g : Nat → CMV e 
 theorem outer_pseudoscalar {d : Nat} (v : Fin d → (Fin d → R)) :
     omap d d (fun i => if h : i < d then DetW.vec (v ⟨i, h⟩) else 0) (blade d (full d)) = (Matrix.of v).det • blade d (full d) :=
   DetW.omap_pseudoscalar v
+
+/-- **the executable `_make_outermorphism` computes this outermorphism** (`Proofs/OutExec.lean`): the two passes of the code
+    (fill the vector columns; for every other source blade fold `dst_omt_func` over `set_bit_indices`) give, in canonical
+    coordinates of the destination, column `i` = `omap f (E_{σs i})`, for any storage orders of the two layouts -/
+theorem executable_outermorphism_is_omap (Cs Cd : Model.Ctx) (M : Array (Array Rat)) (ms d : Nat) (σs : Equiv.Perm (Bm ms)) (σd : Equiv.Perm (Bm d))
+    (hsdims : Cs.L.dims = ms) (hsga : Cs.dims = 2 ^ ms)
+    (hs1 : ∀ i : Bm ms, Cs.L.i2bF i.val = (σs i).val) (hs2 : ∀ c : Bm ms, Cs.L.b2iF c.val = (σs.symm c).val)
+    (hsg : ∀ i : Bm ms, Cs.L.gradeF i.val = pc ms (σs i).val)
+    (hddims : Cd.dims = 2 ^ d) (homt : Cd.omt = Cd.L.omt)
+    (hd1 : ∀ i : Bm d, Cd.L.i2bF i.val = (σd i).val) (hd2 : ∀ c : Bm d, Cd.L.b2iF c.val = (σd.symm c).val)
+    (hdg : ∀ i : Bm d, Cd.L.gradeF i.val = pc d (σd i).val) (i : Bm ms) :
+    OutExec.canon Cd d ((Model.makeOutermorphism Cs Cd M).getD i.val Cd.zero)
+      = omap d ms (fun vs => OutExec.canon Cd d (OutExec.vecCol Cd M vs)) (blade ms (σs i)) :=
+  OutExec.executable_outermorphism Cs Cd M ms d σs σd hsdims hsga hs1 hs2 hsg hddims homt hd1 hd2 hdg i
 
 /-- non-vacuity: a 2×2 example of the adjoint identity over ℤ -/
 example : (!![1, 2; 3, 4] *ᵥ ![1, 0]) ⬝ᵥ ![0, 1] = ![1, 0] ⬝ᵥ ((!![1, 2; 3, 4] : Matrix (Fin 2) (Fin 2) ℤ)ᵀ *ᵥ ![0, 1]) :=
